@@ -184,7 +184,7 @@ def stabilizer_circuit_lookup(num_qubits: int, connectivity: str, lc_class_id: i
         circuitInfos = [StabilizerCircuitInfo(num_qubits, line) for line in filter(lambda x: len(x) != 0, lines)]
         stabilizer_file_cache[filename] = circuitInfos
 
-    return circuitInfos[lc_class_id]
+    return copy.copy(circuitInfos[lc_class_id])
 
 
 mub_file_cache = {}
